@@ -146,6 +146,18 @@ CHECKS = {
         "from the check process.",
         "DESIGN.md 4/C06",
     ),
+    "C12": (
+        "exploration",
+        "property-based testing of algebraic laws (reflexive, symmetric, complementary, hash-consistent) over "
+        "generated records, copies and clear single-field variations, under ignored-field configurations",
+        "Generated plain, nested and grouped records over all field types are compared with an independently rebuilt "
+        "copy (must be equal, equal hash, found in set/dict), with single-field variations that /verif's typed models "
+        "show to be clearly different (must be unequal unless the field is ignored, then equal with equal hash), with a "
+        "same-values record of another descriptor and with non-records; ==, != and hash must never raise; the "
+        "ignored-field configuration must be restored after every scope exit, nested and by exception.",
+        "Grey pairs (0.0/-0.0, NaN, one instant under two offsets) are never used as 'equal' or 'different' evidence.",
+        "DESIGN.md 4/C12",
+    ),
 }
 
 NOT_APPLICABLE = {}
